@@ -190,10 +190,29 @@ func (w *World) scenarioStart() {
 	}
 	w.or.initCfg = conf
 	for i, n := range w.nodes {
-		if i < cfg.Voters {
+		switch {
+		case i < cfg.Voters && i >= cfg.Voters-cfg.LateBootstrap:
+			// a voter the operator has not bootstrapped yet: it runs without a configuration (and
+			// may already vote) until BootstrapCluster is called on the running server
+			w.boot(n, nil)
+			n := n
+			simrt.GoTag("late-bootstrap", "", func() {
+				simrt.Sleep("late-bootstrap", time.Duration(w.ch.Choose(simrt.SWork, 4*int(cfg.ElectionTimeout/time.Millisecond)+1))*time.Millisecond)
+				for try := 0; try < 50; try++ {
+					if inc := n.inc; inc != nil && inc.alive && inc.r != nil {
+						w.stats.probe("live_bootstrap_called")
+						if call := w.cl.do(-1, "bootstrap", inc); call != nil && call.ErrIs == "" && call.ReturnSeq != 0 {
+							w.stats.probe("live_bootstrap_succeeded")
+						}
+						return
+					}
+					simrt.Sleep("late-bootstrap", cfg.HeartbeatTimeout)
+				}
+			})
+		case i < cfg.Voters:
 			c := conf.Clone()
 			w.boot(n, &c)
-		} else {
+		default:
 			w.boot(n, nil)
 		}
 	}
@@ -208,6 +227,10 @@ func (w *World) phase() {
 		w.quietSeq = w.sim.Tick()
 		w.quietAt = time.Now()
 		w.event("quiet period begins")
+		for _, n := range w.nodes {
+			// drift stops with the other faults (the convergence bound is stated in true time)
+			w.sim.SetClockRate(string(n.id), 1000)
+		}
 		w.flt.quiet()
 		w.or.onQuiet()
 	}
